@@ -275,6 +275,7 @@ impl TableLookup {
             // (latest recorded) token, the searched info-hash, our id, the configured port and an 8-byte transaction id of this search
             forall|i: int| old(tr).ev.len() <= i < final(tr).ev.len() && #[trigger] final(tr).ev[i] is Send ==> announce_ok(*old(self), port, final(tr).ev[i]), // @C03.announce_only_to_token_holders_with_their_token
             only_requests_and_yields(old(tr).ev, final(tr).ev), no_yield(old(tr).ev, final(tr).ev), // @C03.finishing_yields_nothing
+            (forall|h: NodeHandle| #[trigger] old(self).announce_tokens@.contains_key(h) ==> old(self).announce_tokens@[h]@.len() <= 1300) ==> forall|i: int| old(tr).ev.len() <= i < final(tr).ev.len() && #[trigger] final(tr).ev[i] is Send ==> blen(final(tr).ev[i]->Send_0) <= 1500, // @C17.announce_queries_fit_1500_bytes_when_the_remote_token_is_at_most_1300_bytes
             final(self).active_lookups@.len() == 0 && !final(self).in_endgame,
     {
         broadcast use vstd::std_specs::hash::group_hash_axioms, nodehandle_key_model, tid_key_model;
@@ -296,6 +297,7 @@ impl TableLookup {
                     self.id_generator.action_id == old(self).id_generator.action_id,
                     forall|i: int| ev0.len() <= i < tr.ev.len() && #[trigger] tr.ev[i] is Send ==> announce_ok(*old(self), port, tr.ev[i]),
                     only_requests_and_yields(ev0, tr.ev), no_yield(ev0, tr.ev),
+                    (forall|h: NodeHandle| #[trigger] old(self).announce_tokens@.contains_key(h) ==> old(self).announce_tokens@[h]@.len() <= 1300) ==> forall|i: int| ev0.len() <= i < tr.ev.len() && #[trigger] tr.ev[i] is Send ==> blen(tr.ev[i]->Send_0) <= 1500, // @C17.announce_queries_fit_1500_bytes_when_the_remote_token_is_at_most_1300_bytes
             {
                 broadcast use vstd::std_specs::hash::group_hash_axioms, nodehandle_key_model;
                 let ghost evb = tr.ev;
